@@ -1257,7 +1257,7 @@ class Explorer:
             return False
         METHS = ('map', 'and_then', 'or_else', 'or', 'unwrap_or', 'unwrap_or_else', 'map_or', 'map_or_else',
                  'ok_or', 'ok_or_else', 'ok', 'err', 'map_err', 'is_some_and', 'is_ok_and', 'unwrap', 'expect',
-                 'unwrap_or_default', 'is_none_or')
+                 'unwrap_or_default', 'is_none_or') + (('filter',) if kind == 'opt' else ())
         if meth not in METHS:
             return False
         v = strip(args[0])
@@ -1348,6 +1348,19 @@ class Explorer:
                     self.apply_callable(args[1], [x], ev, lambda val, e: cont(val, e), depth)
                 else:
                     cont(I(1), ev)
+            elif meth == 'filter':
+                if ispos:
+                    def keep(val, e, c=c):
+                        b = strip(val)
+                        if isinstance(b, I):
+                            cont(c if b.n else none, e)
+                            return
+                        tg = tag_of(val) if self.trace else None
+                        cont(c, (e | {('branch', tg, 1, (0,))}) if tg else e)
+                        cont(none, (e | {('branch', tg, 0)}) if tg else e)
+                    self.apply_callable(args[1], [R(x)], ev, keep, depth)
+                else:
+                    cont(c, ev)
             elif meth in ('unwrap', 'expect'):
                 if ispos:
                     cont(x, ev)
